@@ -103,6 +103,26 @@ def rule_r3(ctx):
                 ctx.r.violation(rid, key_of(f, None, "append-without-pull"), "output appended without flush attempt or wake-up", f.loc(i.ast))
         return
     fl = flush[0]
+    # the worker's own threshold agrees with the I/O thread's: handle_write flushes a running task's output once
+    # total >= send_bytes - so in every such state the worker must have attempted the flush (and, by the guard below,
+    # woken the loop if that was not enough); a stricter test here leaves output that nobody is told about
+    from .common import formula_eval as _fe, formula_leaves as _fl
+    outer = [(t, pol) for (t, pol) in guards_of(g, fl) if "total_outbufs_len" in norm(t)]
+    gap = None
+    for tot in (1, 2, 3):
+        for sb in (1, 2, 3):
+            if tot < sb:
+                continue
+            try:
+                taken = all(bool(_fe(t, {lf: (tot if lf.endswith("total_outbufs_len") else sb if lf.endswith("send_bytes") else None) for lf in _fl(t)})) == pol for (t, pol) in outer)
+            except (KeyError, TypeError) as ex:
+                raise AnalysisError("cannot evaluate the guard of write_soon's flush attempt: %s" % ex)
+            if not taken and gap is None:
+                gap = (tot, sb)
+    if gap:
+        ctx.r.violation(rid, key_of(f, None, "flush-threshold-stricter"), "with %d byte(s) pending and send_bytes=%d write_soon neither flushes nor wakes the I/O loop (its test: %s), although handle_write flushes from total >= send_bytes on: the output sits there until the task writes again or finishes" % (gap[0], gap[1], " and ".join(("" if pol else "not ") + norm(t) for (t, pol) in outer) or "none"), f.loc(fl.ast))
+    else:
+        ctx.r.ok(rid, "write_soon attempts the flush whenever total >= send_bytes", f.loc(fl.ast))
     tgt = fl.ast.targets[0]
     if not (isinstance(tgt, ast.Tuple) and len(tgt.elts) == 2 and all(isinstance(e, ast.Name) for e in tgt.elts)):
         raise AnalysisError("unexpected shape of the flush result")
